@@ -161,7 +161,7 @@ impl Property for C10 {
         "C10"
     }
     fn rule(&self) -> String {
-        "exhaustive enumeration: integer schemas over {10 integer formats, unknown format, none} x lower bound {absent, minimum, exclusiveMinimum} x upper bound {absent, maximum, exclusiveMaximum} x multipleOf {absent, 2} with bounds from the boundary lattice (every integer type's MIN/MAX, each +-1, 0, +-1, 2, ...), a second family with `default` values, pairs of inclusive+exclusive bounds in the thorough tier, plus the string/number format tables (all recognised formats and 200 made-up ones); every lattice integer is probed against the reference admitted()/representable() functions; non-trivial = at least one bound or a default present and at least one admitted probe (or a format-table entry); distinct by schema".into()
+        "exhaustive enumeration: integer schemas over {10 integer formats, unknown format, none} x lower bound {absent, minimum, exclusiveMinimum} x upper bound {absent, maximum, exclusiveMaximum} x multipleOf {absent, 2} with bounds from the boundary lattice (every integer type's MIN/MAX, each +-1, 0, +-1, 2, ...), a second family with `default` values, pairs of inclusive+exclusive bounds on the same side (all four keywords at once in the thorough tier), plus the string/number format tables (all recognised formats and 200 made-up ones); every lattice integer is probed against the reference admitted()/representable() functions; non-trivial = at least one bound or a default present and at least one admitted probe (or a format-table entry); distinct by schema".into()
     }
     fn assumptions(&self) -> Vec<String> {
         vec![
@@ -220,14 +220,34 @@ impl Property for C10 {
                     }
                 }
             }
+            // inclusive and exclusive bound on the same side, on the reduced lattice
+            let r: Vec<i128> = reduced_lattice().into_iter().filter(|n| exact_f64(*n)).collect();
+            for a in &r {
+                for b in &r {
+                    out.push(int_schema(*f, &[("minimum", *a), ("exclusiveMinimum", *b)], None));
+                    out.push(int_schema(*f, &[("maximum", *a), ("exclusiveMaximum", *b)], None));
+                    for c in [r[0], 0, 255, 256, r[r.len() - 1]] {
+                        out.push(int_schema(*f, &[("minimum", *a), ("exclusiveMinimum", *b), ("maximum", c)], None));
+                        out.push(int_schema(*f, &[("maximum", *a), ("exclusiveMaximum", *b), ("minimum", c)], None));
+                    }
+                }
+            }
+            // defaults next to exclusive bounds
+            for a in &r {
+                for d in &r {
+                    out.push(int_schema(*f, &[("exclusiveMinimum", *a)], Some(*d)));
+                    out.push(int_schema(*f, &[("exclusiveMaximum", *a)], Some(*d)));
+                }
+            }
             if tier == Tier::Thorough {
-                // inclusive and exclusive bounds together, on the reduced lattice
-                let r = reduced_lattice();
-                for a in &r {
-                    for b in &r {
-                        for c in [r[0], r[r.len() / 2], r[r.len() - 1], 0, 255] {
-                            out.push(int_schema(*f, &[("minimum", *a), ("exclusiveMinimum", *b), ("maximum", c)], None));
-                            out.push(int_schema(*f, &[("maximum", *a), ("exclusiveMaximum", *b), ("minimum", c)], None));
+                // all four bound keywords at once, on a small lattice
+                let small: Vec<i128> = vec![i64::MIN as i128, -129, -128, -1, 0, 1, 127, 128, 255, 256, 65535, 65536, u32::MAX as i128, (u32::MAX as i128) + 1, 1i128 << 63];
+                for a in &small {
+                    for b in &small {
+                        for c in &small {
+                            for d in &small {
+                                out.push(int_schema(*f, &[("minimum", *a), ("exclusiveMinimum", *b), ("maximum", *c), ("exclusiveMaximum", *d)], None));
+                            }
                         }
                     }
                 }
